@@ -412,6 +412,83 @@ func (t *taintCtx) upperBoundedAt(chain []ssa.Value, b *ssa.BasicBlock, depth in
 				}
 			}
 		}
+		// a field of a struct: the same field read elsewhere from the same local
+		// variable may be the one that was compared; a field of a struct
+		// parameter is bounded when it is at every call site
+		if depth < 3 {
+			var sv ssa.Value
+			fi := -1
+			switch x := u.(type) {
+			case *ssa.Field:
+				sv, fi = x.X, x.Field
+			case *ssa.UnOp:
+				if fa, ok := x.X.(*ssa.FieldAddr); ok && x.Op == token.MUL {
+					if al, ok := fa.X.(*ssa.Alloc); ok {
+						for _, eq := range fieldLoads(al, fa.Field) {
+							if eq != u {
+								if ok2, w := t.upperBoundedAt([]ssa.Value{eq}, b, depth+3); ok2 {
+									return true, w
+								}
+							}
+						}
+						// the local is the spilled copy of a struct parameter
+						if arefs := al.Referrers(); arefs != nil {
+							nStore := 0
+							var stored ssa.Value
+							for _, ar := range *arefs {
+								if st, ok := ar.(*ssa.Store); ok && st.Addr == ssa.Value(al) {
+									nStore++
+									stored = st.Val
+								}
+							}
+							if nStore == 1 {
+								if _, isPrm := stored.(*ssa.Parameter); isPrm {
+									sv, fi = stored, fa.Field
+								}
+							}
+						}
+					}
+				}
+			}
+			if prm, ok := sv.(*ssa.Parameter); ok && fi >= 0 {
+				fn := prm.Parent()
+				idx := -1
+				for i, q := range fn.Params {
+					if q == prm {
+						idx = i
+					}
+				}
+				node := t.p.CG.Nodes[fn]
+				if node != nil && idx >= 0 && len(node.In) > 0 {
+					all, why := true, ""
+					for _, e := range node.In {
+						site := e.Site
+						if site == nil || site.Common().IsInvoke() || idx >= len(site.Common().Args) {
+							all = false
+							break
+						}
+						found := false
+						if ld, ok := site.Common().Args[idx].(*ssa.UnOp); ok && ld.Op == token.MUL {
+							if al, ok := ld.X.(*ssa.Alloc); ok {
+								for _, eq := range fieldLoads(al, fi) {
+									if ok2, w := t.upperBoundedAt(monotoneChain(eq), site.Block(), depth+1); ok2 {
+										found, why = true, w
+										break
+									}
+								}
+							}
+						}
+						if !found {
+							all = false
+							break
+						}
+					}
+					if all {
+						return true, "the field is bounded at every call site: " + why
+					}
+				}
+			}
+		}
 		// parameter: every caller must pass a bounded value
 		if prm, ok := u.(*ssa.Parameter); ok && depth < 3 {
 			fn := prm.Parent()
@@ -480,6 +557,48 @@ func (t *taintCtx) boundedExpr(v ssa.Value, d int) bool {
 			return t.boundedExpr(x.X, d+1) && t.boundedExpr(x.Y, d+1)
 		case token.QUO, token.SHR:
 			return t.boundedExpr(x.X, d+1)
+		}
+	case *ssa.Call:
+		// a helper of the module whose result is such an expression at each of
+		// its returns (e.g. remaining() = len(input) - pos)
+		if sc := x.Common().StaticCallee(); sc != nil && InModule(sc) && len(sc.Blocks) > 0 && sc.Signature.Results().Len() == 1 {
+			n := 0
+			for _, b := range sc.Blocks {
+				if ret, ok := b.Instrs[len(b.Instrs)-1].(*ssa.Return); ok && len(ret.Results) == 1 {
+					n++
+					if !t.boundedExprIn(ret.Results[0], d+1) {
+						return false
+					}
+				}
+			}
+			return n > 0
+		}
+	}
+	return false
+}
+
+// boundedExprIn is boundedExpr for a value inside a callee, where taint was
+// not computed for this query: only the shape counts (constants, len(), and
+// differences, sums, quotients of those).
+func (t *taintCtx) boundedExprIn(v ssa.Value, d int) bool {
+	if d > 6 {
+		return false
+	}
+	if _, ok := v.(*ssa.Const); ok {
+		return true
+	}
+	if boundedSource(v) {
+		return true
+	}
+	switch x := v.(type) {
+	case *ssa.Convert:
+		return t.boundedExprIn(x.X, d+1)
+	case *ssa.BinOp:
+		switch x.Op {
+		case token.SUB, token.QUO, token.SHR:
+			return t.boundedExprIn(x.X, d+1)
+		case token.ADD:
+			return t.boundedExprIn(x.X, d+1) && t.boundedExprIn(x.Y, d+1)
 		}
 	}
 	return false
@@ -625,3 +744,45 @@ func findConcatLoop(funcs []*ssa.Function) []finding {
 }
 
 var _ = strings.Contains
+
+// fieldLoads: the reads of field fi of the local struct variable al, provided
+// the field is never assigned on its own (only the whole variable is).
+func fieldLoads(al *ssa.Alloc, fi int) []ssa.Value {
+	var out []ssa.Value
+	refs := al.Referrers()
+	if refs == nil {
+		return nil
+	}
+	for _, ref := range *refs {
+		switch x := ref.(type) {
+		case *ssa.FieldAddr:
+			if x.Field != fi {
+				continue
+			}
+			if frefs := x.Referrers(); frefs != nil {
+				for _, fr := range *frefs {
+					switch y := fr.(type) {
+					case *ssa.UnOp:
+						if y.Op == token.MUL {
+							out = append(out, y)
+						}
+					case *ssa.Store:
+						if y.Addr == ssa.Value(x) {
+							return nil // assigned on its own: not one value
+						}
+					}
+				}
+			}
+		case *ssa.UnOp:
+			// whole-struct load followed by a Field
+			if lrefs := x.Referrers(); lrefs != nil {
+				for _, lr := range *lrefs {
+					if f, ok := lr.(*ssa.Field); ok && f.Field == fi {
+						out = append(out, f)
+					}
+				}
+			}
+		}
+	}
+	return out
+}
